@@ -43,6 +43,9 @@ def run(ctx, R, tier):
     reserve(F, R)
     play_inserts(F, R)
     capacities(F, R)
+    # prompt removal / never early: the track removal predicate (shared with C12)
+    from .c12 import remove_rule
+    remove_rule(F, R, rule='B.C08.remove')
     if tier == 'thorough':
         from ..witness import run_witnesses
         run_witnesses(R, 'C08')
